@@ -213,6 +213,8 @@ def code_to_spec(ctx, metrics, ncases):
                 elif r < 0.2:
                     sim[k] = np.nan
         hasnan = bool(np.isnan(obs).any() or np.isnan(sim).any())
+        if np.sum(np.isfinite(obs) & np.isfinite(sim)) < 2:
+            continue            # fewer than two complete pairs: outside the property's domain (the scores raise "No valid data")
         ex = True if hasnan else bool(rng.random() < 0.5)
         nse = call(metrics.nse, obs, sim, excludenull=ex)
         bs = call(metrics.bias, obs, sim, excludenull=ex)
